@@ -9,4 +9,11 @@ CHECKS = {
    design_ref="5/C16", note=_T + "; 'physically reasonable guess' = jumps within 20 % of a scalar reference root",
    technique="runtime contracts (icontract) + finite-difference reference oracle on sampled states"),
 }
+CHECKS["C15"] = dict(
+   text="Held on the sampled materials (15 parameter pairs each, incl. boundary, non-positive-definite and mutually inconsistent pairs) and on the sampled (cavity, density, pressure, time, radius) cases: elastic-moduli identities, wave equation by differences of the returned displacement, cavity-wall and front conditions, strain/stress/density relations. Sampling, not proof.",
+   design_ref="5/C15", note=_T, technique="reference-relation monitors on recorded public calls (finite-difference PDE residual, algebraic identities)")
+CHECKS["C13"] = dict(
+   text="Held on the sampled detonator layouts/points (2-D and 3-D; interface, shadow-boundary and antipodal points included): detonator values, causality bounds, two-point Lipschitz bound, continuity across interfaces, eikonal equation by differences. Sampling, not proof.",
+   design_ref="5/C13", note=_T + "; near the Kenamond3 antipode values are only accurate to sqrt(eps) R/D (arccos formulation) and the monitors allow 1e-7 R/D",
+   technique="first-arrival invariants (Lipschitz/eikonal/continuity) monitored on recorded public calls")
 NOT_YET = {}
